@@ -259,7 +259,13 @@ def seq_of_terms(terms, kind="list", esort="int"):
 
 def seq_concat(a: VSeq, b: VSeq, kind=None):
     an = a.n
-    return VSeq(lambda k: z3.If(k < an, a.at(k), b.at(k - an)), a.n + b.n, kind or a.kind, esort=a.esort)
+    r = VSeq(lambda k: z3.If(k < an, a.at(k), b.at(k - an)), a.n + b.n, kind or a.kind, esort=a.esort)
+    # remember the pieces: when r is materialised into an array, that array agrees with the pieces' arrays
+    # on their ranges (used by the spec functions' shift/extensionality lemmas)
+    pa = getattr(a, "parts", None) or [(a, z3.IntVal(0))]
+    pb = getattr(b, "parts", None) or [(b, z3.IntVal(0))]
+    r.parts = list(pa) + [(p, z3.simplify(st + an)) for p, st in pb]
+    return r
 
 
 def seq_slice_raw(a: VSeq, lo, ln, kind=None):
